@@ -42,6 +42,25 @@ theorem gap_is_missing (k : Nat) (fs : List (Option Frame)) (rest : Bytes)
     ∃ out, (decRuns k fs.length).run (encRuns fs ++ rest) = some (out, rest) ∧ out[j]? = some (fs[j]'hj) := by
   exact ⟨fs, decRuns_run k fs rest hk hn, by simp [List.getElem?_eq_getElem hj]⟩
 
+/-- the presence rule of the library on raw rows: frame j is inside a written run iff the FIRST component
+    of row j is finite; every other row — NaN or ±inf there, whatever the other components hold — is
+    outside the runs and reads back as missing -/
+theorem raw_rows_cover (raw : List Frame) (j : Nat) (hj : j < raw.length) :
+    lookupRuns (runs (see raw)) j = (if rowPresent (raw[j]'hj) then some (raw[j]'hj) else none) := by
+  rw [runs_cover]
+  simp only [see, List.getElem?_map, List.getElem?_eq_getElem hj, Option.map_some, Option.join_some]
+
+theorem raw_rows_table_canonical (raw : List Frame) :
+    canonicalFrom 0 raw.length (segTable (runs (see raw))) = true := by
+  have := runs_canonical (see raw)
+  simpa [see] using this
+
+/-- a row whose first component is NaN or ±inf is not stored: +inf = 0x7F800000, −inf = 0xFF800000,
+    the canonical NaN = 0x7FC00000 -/
+example : rowPresent [0x7F800000, 0, 0] = false ∧ rowPresent [0xFF800000, 0, 0] = false ∧
+          rowPresent [0x7FC00000, 0, 0] = false ∧ rowPresent [0x3F800000, 0x7FC00000, 0x7F800000] = true ∧
+          rowPresent [0x7F7FFFFF] = true ∧ rowPresent [0x00000001] = true := by decide
+
 /-- identical on every decode of the same bytes: the decoder is a function of the bytes alone -/
 theorem deterministic (k n : Nat) (bs : Bytes) (r1 r2 : Option (List (Option Frame) × Bytes))
     (h1 : (decRuns k n).run bs = r1) (h2 : (decRuns k n).run bs = r2) : r1 = r2 := by
